@@ -1709,6 +1709,13 @@ def c16_cli(ctx, res):
         for cmd in ("goto begin", "print data+1", "break add loop", "assembly nowhere", "break remove m1", "move x 5", "goto m", "print M+1;continue"):
             for via in ("stdin", "arg"):
                 jobs.append((pn, cmd + ("\n" if via == "stdin" else ""), via))
+    # a program whose first branch relies on the condition codes of a fresh machine (none set: no branch is taken):
+    # after `reset` it is a fresh machine again, and the run ends as it did the first time
+    progs["fresh_cc.asm"] = "brnzp spin\nand r0 r0 #0\nhalt\nspin brnzp spin\n"
+    _write(os.path.join(d, "fresh_cc.asm"), progs["fresh_cc.asm"])
+    for cmd in ("continue;reset;continue", "step;step;reset;continue", "step into 2;reset;step into 3;continue", "continue;reset;reset;step;continue", "reset;continue"):
+        for via in ("stdin", "arg"):
+            jobs.append(("fresh_cc.asm", cmd.replace(";", "\n") + "\n" if via == "stdin" else cmd, via))
     # standard input that cannot be read at all (a directory): the script given with --command runs, then the
     # reader meets an error instead of an end - the session ends (giving up counts), it does not spin
     for pn in ("halts.asm", "puts_at_ffff.asm", "to_ffff.asm"):
@@ -1785,7 +1792,7 @@ def c16_cli(ctx, res):
     c16_input_traps(ctx, res, d)
     res.require(["l2:session_through_real_reader:stdin", "l2:session_through_real_reader:arg", "l2:script_without_final_newline",
                  "l2:session_terminated", "l2:input_trap_under_debugger:arg", "l2:input_trap_under_debugger:stdin", "l2:program:halts", "l2:program:runs_off", "l2:program:jumps_low", "l2:program:to_ffff",
-                 "l2:program:prints_esc", "l2:script_not_utf8", "l2:program:puts_at_ffff", "l2:session_through_real_reader:stdin-is-a-directory"], "L2")
+                 "l2:program:prints_esc", "l2:script_not_utf8", "l2:program:puts_at_ffff", "l2:program:fresh_cc", "l2:program:no_labels", "l2:session_through_real_reader:stdin-is-a-directory"], "L2")
 
 
 def _blocked_on_itself(pid):
